@@ -98,3 +98,76 @@ func hC08Seg() {
 		verifAssert(sameMsgs(out.msgs, respMsgs), "C08: segmented response delivers the handler's messages")
 	}
 }
+
+// hC08Limit: segmentation independence at the message size limit (L=4): one request or response message of
+// 3, 5 or 9 bytes, optionally re-encoded by a bulky codec; whether the RPC is accepted or refused with
+// resource_exhausted must not depend on how the same bytes are cut into Reads and Writes.
+func hC08Limit() {
+	cfg, ok := pickAdapterCfg()
+	if !ok {
+		return
+	}
+	if pipeIsPassThrough(cfg) {
+		return
+	}
+	cfg.maxMsg = 4
+	if verifChoose("bulkyJSON", 2) == 1 {
+		cfg.jsonRepeat = 3
+	}
+	target, _, _ := refNegotiate(cfg)
+	unaryKind := cfg.kind == fkUnary
+	targetEnveloped := target == ProtocolGRPC || target == ProtocolGRPCWeb || (target == ProtocolConnect && !unaryKind)
+	size := []int{3, 5, 9}[verifChoose("size", 3)]
+	big := []byte("abcdefghi")[:size]
+	reqMsgs := []wireMsg{{abstract: []byte{'q'}, compressed: cfg.clientComp}}
+	respMsgs := []wireMsg{{abstract: []byte{'r'}}}
+	if verifChoose("direction", 2) == 0 {
+		reqMsgs[0].abstract = big
+	} else {
+		respMsgs[0].abstract = big
+	}
+	var chunk, bufSize, mode, splitAt int
+	switch verifChoose("profile", 4) {
+	case 0:
+		chunk, bufSize, mode = 1, 1, wmBytes
+	case 1:
+		chunk, bufSize, mode, splitAt = 2, 3, wmSplit, 4
+	case 2:
+		chunk, bufSize, mode = 3, 7, wmNoisy
+	default:
+		chunk, bufSize, mode, splitAt = 4, 4, wmSplit, 2
+	}
+	declareLen := !targetEnveloped && verifChoose("declareLen", 2) == 1
+
+	ref := newPipe(cfg)
+	if !ref.buildOK {
+		return
+	}
+	ref.backend.script = &respScript{msgs: respMsgs, declareLen: declareLen}
+	ref.serve(reqMsgs)
+
+	seg := newPipe(cfg)
+	seg.backend.script = &respScript{msgs: respMsgs, writeMode: mode, splitAt: splitAt, declareLen: declareLen}
+	seg.backend.bufSize = bufSize
+	seg.body.chunk = chunk
+	seg.serve(reqMsgs)
+
+	verifObsInt("ref-status", int64(ref.sink.status))
+	verifObsInt("seg-status", int64(seg.sink.status))
+	verifObsBytes("ref-client-body", ref.sink.body)
+	verifObsBytes("seg-client-body", seg.sink.body)
+	if target == ProtocolConnect && unaryKind && ref.backend.rec.method == "GET" {
+		verifOutside("Connect GET towards the backend is decided in C19")
+	}
+	verifReach("both-runs-at-the-limit")
+	refOut := refParseClientResponse(cfg, ref.sink, ref.backend.rec.calls > 0)
+	segOut := refParseClientResponse(cfg, seg.sink, seg.backend.rec.calls > 0)
+	verifAssert(ref.backend.rec.calls == seg.backend.rec.calls, "C08: dispatch at the size limit does not depend on segmentation")
+	verifAssert(ref.sink.status == seg.sink.status, "C08: response status at the size limit does not depend on segmentation")
+	verifAssert(refOut.valid == segOut.valid && refOut.code == segOut.code, "C08: acceptance or refusal at the size limit does not depend on segmentation")
+	if refOut.valid && segOut.valid && refOut.code == 0 && segOut.code == 0 {
+		verifReach("accepted-both")
+		verifAssert(bytesEq(ref.sink.body, seg.sink.body), "C08: response body at the size limit does not depend on segmentation")
+		verifAssert(bytesEq(ref.backend.rec.body, seg.backend.rec.body), "C08: request bytes at the size limit do not depend on segmentation")
+	}
+}
